@@ -55,10 +55,12 @@ Theorem C17_volume_monotone : forall (pr : @oc_params R) lam lam' (x g : list R)
 Proof. exact volume_antitone. Qed.
 Print Assumptions C17_volume_monotone.
 
-(* loop invariant and exit condition of the bisection (bis_post: l1 <= a <= b <= l2, b - a <= l1l2tol, the
+(* loop invariant and exit condition of the bisection (over R the no-representable-midpoint guard of fix bd6675c never
+   fires when l1l2tol >= 0; bis_post: l1 <= a <= b <= l2, b - a <= l1l2tol, the
    interval was halved k times, an end that moved carries its volume test, and the design bound to xnew is the
    update at the end that moved last) *)
-Theorem C17_bisection_invariant : forall (pr : @oc_params R) maxvol (x g : list R) fuel l1 l2 last a b lst,
+Theorem C17_bisection_invariant : forall (pr : @oc_params R) maxvol (x g : list R), 0 <= l1l2tol pr ->
+  forall fuel l1 l2 last a b lst,
   l1 <= l2 -> bisect ROOps pr maxvol x g fuel l1 l2 last = BisDone a b lst ->
   bis_post pr maxvol x g l1 l2 last a b lst.
 Proof. exact bisect_invariant. Qed.
@@ -66,7 +68,8 @@ Print Assumptions C17_bisection_invariant.
 
 (* termination with the explicit step count: k halvings suffice when (l2 - l1)/2^k <= l1l2tol; such a k
    exists for every positive tolerance *)
-Theorem C17_bisection_terminates : forall (pr : @oc_params R) maxvol (x g : list R) k fuel l1 l2 last,
+Theorem C17_bisection_terminates : forall (pr : @oc_params R) maxvol (x g : list R), 0 <= l1l2tol pr ->
+  forall k fuel l1 l2 last,
   (l2 - l1) / 2 ^ k <= l1l2tol pr -> (k <= fuel)%nat ->
   bisect ROOps pr maxvol x g fuel l1 l2 last <> BisOutOfFuel.
 Proof. exact bisect_terminates. Qed.
@@ -105,7 +108,7 @@ Print Assumptions C17_bracket_growing_reaches_volume.
    so its volume differs from maxvol by at most vol(a) - vol(b) *)
 Theorem C17_volume_to_bisection_tolerance_partial : forall (pr : @oc_params R) maxvol (x g : list R) gfuel bfuel l2g xng a b xnew,
   in_box pr x -> 0 <= move pr -> nonneg x -> nonpos g -> length g = length x ->
-  0 <= l1init pr <= l2init pr ->
+  0 <= l1l2tol pr -> 0 <= l1init pr <= l2init pr ->
   grow ROOps pr maxvol x g gfuel (l2init pr) (oc_xnew ROOps pr (l2init pr) x g) = GrowDone l2g xng ->
   bisect ROOps pr maxvol x g bfuel (l1init pr) l2g (Some xng) = BisDone a b (Some xnew) ->
   osum ROOps (oc_lower ROOps pr x) <= maxvol -> l2g < 10 ^ 40 -> a <> l1init pr ->
